@@ -1,17 +1,16 @@
 (* C04 MMST.  Rules (utils.make_action_mask / docs): agent a may move to node j iff j is adjacent to its position in the
    base graph and j is not a utility node already used by ANOTHER agent ([legal_move]); finished agents have no move.
-   [Inv] (coq/Proofs/Mmst.v) holds on every reset state of a well-formed instance and is preserved by EVERY step
-   (any actions, any tie-break permutation).
-   Proved: the mask of the successor state is exactly [not finished BEFORE the step] && legal_move, for every agent and
-   every node.  The full statement "mask = not finished (current flags) && legal_move" is REFUTED by the faithful model:
-   the mask is built with the previous finished flags (env.py "Not updated yet"), see ..._stale_mask_refuted. *)
+   [Inv] (coq/Proofs/Mmst.v) holds on every reset state of a well-formed instance (C04_Mmst_inv_reset) and is preserved by
+   EVERY step (any actions, any tie-break permutation).
+   Proved at full strength (after fix aa74bf17, which rebuilds the mask with the updated finished flags): the mask of the
+   successor state is exactly [not finished in THAT state] && legal_move, for every agent and every node. *)
 Require Import JV.Base.Prelude JV.Base.JaxIndex JV.Base.Codec JV.Base.TimeStep JV.Model.Mmst JV.Proofs.Mmst_lib JV.Proofs.Mmst JV.Proofs.Mmst_Episode JV.Proofs.Mmst_Obs JV.Proofs.Mmst_Gen JV.Proofs.Mmst_Examples JV.Proofs.Mmst_Init.
-Theorem C04_Mmst_mask_iff_legal_partial c start s acts perm a j :
+Theorem C04_Mmst_mask_iff_legal c start s acts perm a j :
   Inv c start s -> 0 <= a < cA c -> 0 <= j < cN c ->
-  gat false (amask (fst (step c s acts perm))) a j
-  = negb (znth false (fin s) a) && legal_move (cA c) (fst (step c s acts perm)) a j.
+  let t := fst (step c s acts perm) in
+  gat false (amask t) a j = negb (znth false (fin t) a) && legal_move (cA c) t a j.
 Proof. intro H. exact (mask_s' c start s acts perm H a j). Qed.
-Print Assumptions C04_Mmst_mask_iff_legal_partial.
+Print Assumptions C04_Mmst_mask_iff_legal.
 (* the active-edge tensor the mask is read from = base graph minus edges into utility nodes used by other agents *)
 Theorem C04_Mmst_active_edges c start s a i j :
   Inv c start s -> 0 <= a < cA c -> 0 <= i < cN c -> 0 <= j < cN c ->
@@ -24,13 +23,12 @@ Theorem C04_Mmst_inv_reset c base adj0 comps :
   instance_wf c base adj0 comps -> Inv c (fun a => jget 0 (znth [] comps a) 0) (fst (init c base adj0 comps)).
 Proof. exact (init_Inv c base adj0 comps). Qed.
 Print Assumptions C04_Mmst_inv_reset.
-(* a masked-in move of an unfinished agent that wins (or has no) tie-break is executed: see C05 for the converse *)
-Theorem C04_Mmst_stale_mask_refuted :
-  exists c s a j, znth false (fin s) a = true /\ gat false (amask s) a j = true /\ legal_move (cA c) s a j = true
-    /\ s = fst (step c (fst (init c ex_base ex_adj ex_comps)) [1; 4] [0; 1])
-    /\ znth 0 (pos (fst (step c s [j; 3] [0; 1]))) a = znth 0 (pos s) a.
-Proof. exists ex_cfg, ex_s1, 0, 2. pose proof stale_mask_witness as H. repeat split; try apply H. Qed.
-Print Assumptions C04_Mmst_stale_mask_refuted.
+(* formerly C04_Mmst_stale_mask_refuted: on the fixed code the just-finished agent's row is empty *)
+Theorem C04_Mmst_finished_agent_has_empty_mask :
+  znth false (fin ex_s1) 0 = true /\ legal_move 2 ex_s1 0 2 = true
+  /\ amask ex_s1 = [[false; false; false; false; false; false]; [false; false; false; true; false; true]]
+  /\ znth 0 (pos (fst (step ex_cfg ex_s1 [2; 3] [0; 1]))) 0 = znth 0 (pos ex_s1) 0.
+Proof. exact fresh_mask_example. Qed.
 Example C04_Mmst_nonvacuous :
   ntypes ex_s0 = [0; 0; -1; 1; -1; 1] /\ pos ex_s0 = [0; 5]
   /\ amask ex_s0 = [[false; true; false; false; false; false]; [false; false; false; false; true; false]]
